@@ -1,47 +1,120 @@
 #!/usr/bin/env python3
-"""Apply each seeded change under /verif/seeded/<id>/patch.diff to /repo, run the property's quick check, undo.
-usage: run_seeded.py [<id> ...]     (prints one line per seeded change: caught / MISSED)"""
+"""Run the property's check against each seeded change under /verif/seeded/<id>/patch.diff.
+
+usage: run_seeded.py [-j N] [--tier quick|thorough] [--inplace] [<id> ...]
+       (prints one line per seeded change: caught / MISSED; exit 1 if any was missed)
+
+Default mode never touches /repo: for every seeded change it makes a scratch git worktree of /repo's HEAD under
+$TMPDIR/vseed/<id>/repo, applies the patch there, copies /verif (with its lake build output, 60 MB) to
+$TMPDIR/vseed/<id>/verif and runs `OUTRANK_REPO=<worktree> <copy>/check <Cxx> quick` there, N jobs in parallel;
+both scratch directories are removed as soon as the job is done.
+--inplace applies the patch to /repo itself (git apply), runs /verif/check, and undoes it (git checkout -- .)."""
+import argparse
+import concurrent.futures as cf
 import json
 import os
+import shutil
 import subprocess
 import sys
+import tempfile
 
 VERIF = os.path.dirname(os.path.dirname(os.path.abspath(__file__)))
 REPO = '/repo'
+SCRATCH = os.path.join(tempfile.gettempdir(), 'vseed')
+
+
+def sh(cmd, **kw):
+    return subprocess.run(cmd, capture_output=True, text=True, **kw)
+
+
+def run_checks(check, checks, tier, env=None):
+    outs, caught = [], False
+    for p in checks:
+        r = sh([check, p, tier], cwd=os.path.dirname(check), env=env)
+        v = [l for l in r.stdout.splitlines() if l.startswith('VIOLATION')]
+        tail = r.stdout.strip().splitlines()[-1][:150] if r.stdout.strip() else r.stderr.strip()[-150:]
+        outs.append(f'{p}: exit={r.returncode} ' + (' | '.join(v[:2]) if v else tail))
+        if r.returncode == 1 and v:
+            caught = True
+            try:   # keep what the replay says, for the record
+                rp = v[0].split('replay=')[1].split()[0]
+                what = json.load(open(os.path.join(os.path.dirname(check), rp))).get('what', '')
+                outs[-1] += ' :: ' + what[:160]
+            except Exception:
+                pass
+    return caught, outs
+
+
+def job_isolated(i, tier):
+    d = os.path.join(VERIF, 'seeded', i)
+    meta = json.load(open(os.path.join(d, 'meta.json')))
+    root = os.path.join(SCRATCH, i)
+    shutil.rmtree(root, ignore_errors=True)
+    os.makedirs(root)
+    wt, vcopy = os.path.join(root, 'repo'), os.path.join(root, 'verif')
+    try:
+        a = sh(['git', '-C', REPO, 'worktree', 'add', '--detach', wt, 'HEAD'])
+        if a.returncode != 0:
+            return i, None, ['worktree failed: ' + a.stderr.strip()[:200]]
+        a = sh(['git', '-C', wt, 'apply', os.path.join(d, 'patch.diff')])
+        if a.returncode != 0:
+            return i, None, ['patch does not apply: ' + a.stderr.strip()[:200]]
+        sh(['rsync', '-a', '--exclude', '.git', '--exclude', 'replays', '--exclude', 'seeded', VERIF + '/', vcopy + '/'])
+        env = dict(os.environ, OUTRANK_REPO=wt)
+        env.pop('NUMBA_CACHE_DIR', None)
+        caught, outs = run_checks(os.path.join(vcopy, 'check'), meta.get('checks', [meta['property']]), tier, env)
+        return i, caught, outs
+    finally:
+        sh(['git', '-C', REPO, 'worktree', 'remove', '--force', wt])
+        shutil.rmtree(root, ignore_errors=True)
+        sh(['git', '-C', REPO, 'worktree', 'prune'])
+
+
+def job_inplace(i, tier):
+    d = os.path.join(VERIF, 'seeded', i)
+    meta = json.load(open(os.path.join(d, 'meta.json')))
+    st = sh(['git', '-C', REPO, 'status', '--porcelain', '--untracked-files=no']).stdout.strip()
+    if st:
+        return i, None, ['refusing: /repo has uncommitted changes: ' + st]
+    a = sh(['git', '-C', REPO, 'apply', os.path.join(d, 'patch.diff')])
+    if a.returncode != 0:
+        return i, None, ['patch does not apply: ' + a.stderr.strip()[:200]]
+    try:
+        caught, outs = run_checks(os.path.join(VERIF, 'check'), meta.get('checks', [meta['property']]), tier)
+        return i, caught, outs
+    finally:
+        sh(['git', '-C', REPO, 'checkout', '--', '.'])
 
 
 def main():
+    ap = argparse.ArgumentParser()
+    ap.add_argument('-j', type=int, default=6)
+    ap.add_argument('--tier', default='quick')
+    ap.add_argument('--inplace', action='store_true')
+    ap.add_argument('ids', nargs='*')
+    a = ap.parse_args()
     root = os.path.join(VERIF, 'seeded')
-    ids = sys.argv[1:] or sorted(d for d in os.listdir(root) if os.path.isdir(os.path.join(root, d)))
+    ids = a.ids or sorted(d for d in os.listdir(root) if os.path.isdir(os.path.join(root, d)))
     rc_all = 0
-    for i in ids:
-        d = os.path.join(root, i)
-        meta = json.load(open(os.path.join(d, 'meta.json')))
-        prop = meta['property']
-        st = subprocess.run(['git', '-C', REPO, 'status', '--porcelain', '--untracked-files=no'], capture_output=True, text=True).stdout.strip()
-        if st:
-            print('refusing: /repo has uncommitted changes:\n' + st)
-            return 2
-        a = subprocess.run(['git', '-C', REPO, 'apply', os.path.join(d, 'patch.diff')], capture_output=True, text=True)
-        if a.returncode != 0:
-            print(f'{i}: patch does not apply: {a.stderr.strip()[:200]}')
-            rc_all = 2
-            continue
-        try:
-            checks = meta.get('checks', [prop])
-            outs = []
-            caught = False
-            for p in checks:
-                r = subprocess.run([os.path.join(VERIF, 'check'), p, 'quick'], capture_output=True, text=True, cwd=VERIF)
-                v = [l for l in r.stdout.splitlines() if l.startswith('VIOLATION')]
-                outs.append(f'{p}: exit={r.returncode} ' + (' | '.join(v[:2]) if v else r.stdout.strip().splitlines()[-1][:150] if r.stdout.strip() else r.stderr.strip()[-150:]))
-                caught = caught or (r.returncode == 1 and bool(v))
-            print(f'{i}: {"caught" if caught else "MISSED"} :: ' + ' ;; '.join(outs))
-            if not caught:
-                rc_all = 1
-        finally:
-            subprocess.run(['git', '-C', REPO, 'checkout', '--', '.'])
-    return rc_all
+    results = {}
+    if a.inplace:
+        for i in ids:
+            results[i] = job_inplace(i, a.tier)
+            print_result(*results[i])
+    else:
+        with cf.ThreadPoolExecutor(max_workers=a.j) as ex:
+            futs = {ex.submit(job_isolated, i, a.tier): i for i in ids}
+            for f in cf.as_completed(futs):
+                results[futs[f]] = f.result()
+                print_result(*results[futs[f]])
+    missed = sorted(i for i, (_, c, _) in results.items() if not c)
+    print(f'SUMMARY {len(results) - len(missed)}/{len(results)} caught' + (('; not caught: ' + ' '.join(missed)) if missed else ''))
+    return 1 if missed else rc_all
+
+
+def print_result(i, caught, outs):
+    tag = 'caught' if caught else ('ERROR' if caught is None else 'MISSED')
+    print(f'{i}: {tag} :: ' + ' ;; '.join(outs), flush=True)
 
 
 if __name__ == '__main__':
